@@ -54,9 +54,12 @@ type c14Case struct {
 	// PaceUS > 0: the feeder waits this many microseconds after every message, so that an outage costs a limited
 	// number of messages and later breaks of the plan still find traffic
 	PaceUS int `json:"pace_us,omitempty"`
+	// Arena: the messages are handed over as adjacent sub-slices of one buffer (a feeder that encodes into an arena),
+	// so each handed slice has spare capacity that belongs to the next message; otherwise as private copies
+	Arena bool `json:"arena,omitempty"`
 }
 
-const c14Rule = "case = raw-socket producer configuration (tcp | udp, retry-max 0..4) + 1..300 messages (1 octet..48 KiB, in a quarter of the tcp cases some extended to exactly 255..131073 octets on and next to the 8-, 12-, 16- and 17-bit marks; JSON-like text rich in %d %s %% %! verbs, quotes, UTF-8 and arbitrary non-newline octets, each tagged with its index) " +
+const c14Rule = "case = raw-socket producer configuration (tcp | udp, retry-max 0..4) + 1..300 messages (1 octet..48 KiB, in a quarter of the tcp cases some extended to exactly 255..131073 octets on and next to the 8-, 12-, 16- and 17-bit marks; JSON-like text rich in %d %s %% %! verbs, quotes, UTF-8 and arbitrary non-newline octets, each tagged with its index; in a quarter of the cases handed over as adjacent sub-slices of one buffer instead of private copies: the producer must not touch memory beyond the message, and the buffer must be unchanged afterwards) " +
 	"+ fault plan (tcp): none, or 1..3 breaks (after message i the sink closes gracefully | resets the connection, optionally stops listening for a drawn downtime; with two or more breaks the feeder is paced so that later breaks still find traffic), or an outage plan (2..4 outages on one producer, each costing a drawn 2..140 messages of a paced feeder, delivered traffic in between), or a stall plan (the sink stops reading while 30..60 messages of 48 KiB follow, so that a write blocks half-way, then resets), or a slow-sink plan (the sink stops reading for 0.3..5.5 s (thorough: ..31 s) and then goes on, while 1200..2500 messages keep the producer's queue full: the no-fault oracle applies); with a fault plan the producer may have been up and idle for 0.4..5.5 s (thorough: ..31 s) before traffic starts; the real producer.NewProducer(\"rawSocket\").Run() writes to a sink owned by the harness; " +
 	"oracle without fault = the sink's byte stream is exactly concat(message + newline) (udp: one datagram per message, paced); with faults (every break index is a fault point) = the complete lines received over all connections are " +
 	"byte-identical input messages with strictly increasing indices (no duplicate, no corruption, no reordering), and once the sink is reachable again probe messages handed over one at a time resume delivery within retry-max+4 probes with nothing missing afterwards; " +
@@ -97,6 +100,12 @@ func genC14Payload(t *rapid.T) []byte {
 }
 
 func genC14(t *rapid.T) c14Case {
+	c := genC14Plan(t)
+	c.Arena = rapid.IntRange(0, 3).Draw(t, "arena") == 0 && c.Protocol == "tcp"
+	return c
+}
+
+func genC14Plan(t *rapid.T) c14Case {
 	c := c14Case{Protocol: rapid.SampledFrom([]string{"tcp", "tcp", "tcp", "udp"}).Draw(t, "protocol"), RetryMax: rapid.IntRange(0, 4).Draw(t, "retrymax")}
 	n := rapid.OneOf(rapid.IntRange(1, 12), rapid.IntRange(1, 60), rapid.IntRange(1, 300)).Draw(t, "nmsgs")
 	total := 0
@@ -480,8 +489,33 @@ func runC14(c *c14Case) (v verdict, sig string, err error) {
 		time.Sleep(time.Duration(c.AgeMS) * time.Millisecond)
 		v.label(c.AgeMS >= 3000, "producer-up>=3s-before-break")
 	}
+	var arena, arenaCopy []byte
+	var handed [][]byte
+	if c.Arena {
+		for _, m := range wireMsgs {
+			arena = append(arena, m...)
+		}
+		arena = append(arena, "tail-of-the-arena"...)
+		arenaCopy = append([]byte{}, arena...)
+		off := 0
+		for _, m := range wireMsgs {
+			handed = append(handed, arena[off:off+len(m)])
+			off += len(m)
+		}
+		v.label(true, "messages-handed-over-as-adjacent-sub-slices")
+	}
+	arenaIntact := func() error {
+		if c.Arena && !bytes.Equal(arena, arenaCopy) {
+			return fmt.Errorf("the producer wrote into the memory the messages were handed over in (adjacent sub-slices of one buffer): %s", firstDiff(arena, arenaCopy))
+		}
+		return nil
+	}
 	for i, m := range wireMsgs {
-		ch <- append([]byte{}, m...)
+		if c.Arena {
+			ch <- handed[i]
+		} else {
+			ch <- append([]byte{}, m...)
+		}
 		if c.PaceUS > 0 && c.PaceUS <= 100000 {
 			time.Sleep(time.Duration(c.PaceUS) * time.Microsecond)
 		}
@@ -511,6 +545,9 @@ func runC14(c *c14Case) (v verdict, sig string, err error) {
 		for _, m := range wireMsgs {
 			want = append(want, m...)
 			want = append(want, '\n')
+		}
+		if e := arenaIntact(); e != nil {
+			return v, "arena", e
 		}
 		if !bytes.Equal(stream, want) {
 			return v, "stream", fmt.Errorf("sink stream differs from the messages handed over (%d messages; all arrived in time: %v): %s", len(wireMsgs), ok, firstDiff(stream, want))
@@ -586,6 +623,9 @@ func runC14(c *c14Case) (v verdict, sig string, err error) {
 	finish()
 	if s := perr.Load(); s != nil {
 		return v, "panic", fmt.Errorf("%s", s)
+	}
+	if e := arenaIntact(); e != nil {
+		return v, "arena", e
 	}
 	sink.mu.Lock()
 	lines := append([][]byte{}, sink.lines...)
